@@ -61,7 +61,8 @@ def node_array(sg):
     return arr
 
 
-def write_gsb(path, subgrids, system_f='GDA94', system_t='GDA2020', gs_type='SECONDS', version='TESTv1', pad=b'\x00' * 4):
+def write_gsb(path, subgrids, system_f='GDA94', system_t='GDA2020', gs_type='SECONDS', version='TESTv1', pad=b'\x00' * 4,
+              axes=(6378137.0, 6356752.314, 6378137.0, 6356752.314)):
     PAD[0] = pad
     arrays = []
     with open(path, 'wb') as f:
@@ -72,10 +73,10 @@ def write_gsb(path, subgrids, system_f='GDA94', system_t='GDA2020', gs_type='SEC
         f.write(_key('VERSION') + _s(version))
         f.write(_key('SYSTEM_F') + _s(system_f))
         f.write(_key('SYSTEM_T') + _s(system_t))
-        f.write(_key('MAJOR_F') + _d(6378137.0))
-        f.write(_key('MINOR_F') + _d(6356752.314))
-        f.write(_key('MAJOR_T') + _d(6378137.0))
-        f.write(_key('MINOR_T') + _d(6356752.314))
+        f.write(_key('MAJOR_F') + _d(axes[0]))
+        f.write(_key('MINOR_F') + _d(axes[1]))
+        f.write(_key('MAJOR_T') + _d(axes[2]))
+        f.write(_key('MINOR_T') + _d(axes[3]))
         for sg in subgrids:
             arr = node_array(sg)
             arrays.append(arr)
